@@ -73,6 +73,12 @@ prop("C09", True, "fault_enumeration",
      "Trusted: the injecting reader/writer; persistent faults only; offsets on large files restricted to head/tail and line boundaries in the quick tier.",
      "DESIGN.md 3/C09", E1)
 
+prop("C10", True, "model_checking",
+     "exhaustive enumeration: every Unicode scalar x 4 encodings, all short byte strings, all UTF-16 unit sequences over a boundary menu, every truncation; trace decoder vs reference text decoding",
+     "Every Unicode scalar value is decoded as metadata content in all four encodings; every byte string up to length 2/3 is injected into a UTF-8 line; every UTF-16 code unit and every short unit sequence over a boundary menu is injected in LE and BE (also with an odd tail); every truncation of the bundled files is decoded. Routed lines and metadata values must equal the reference decoding (from_utf8_lossy per line, decode_utf16 with replacement, split on U+000A only).",
+     "Trusted: Rust std's lossy decoders as the reference; the reference framing procedure shared with C05.",
+     "DESIGN.md 3/C10", E1)
+
 NOT_BUILT_REASON = "check not built yet in this session (planned, see DESIGN.md section 3); not claimed until it exists"
 
 def main():
